@@ -224,7 +224,9 @@ fn defective_definition(c: &mut Chooser, task: &ExternalTask, defect: &str, earl
         "predicate-defined-earlier" => one(eqv(atom(&earlier[0], vec![x()]), ok_body)),
         _ => one(eqv(atom("bad", vec![x()]), atom("not_yet_defined", vec![x()]))),
     };
-    gt::annotated(fol::Role::Definition, fol::Direction::Universal, "baddef", f)
+    // the defective definition carries any direction annotation (decided without consuming a choice)
+    let direction = [fol::Direction::Universal, fol::Direction::Universal, fol::Direction::Forward, fol::Direction::Backward][c.aux(31, 4)];
+    gt::annotated(fol::Role::Definition, direction, "baddef", f)
 }
 
 fn base_name(n: &str) -> &str {
@@ -348,7 +350,9 @@ impl Check for C13 {
                     if pred.1 == 0 { g::not(atom(&inp, vec![num(0)])) } else { atom(&inp, vec![gv("X")]) },
                 );
                 let f = if pred.1 == 0 { body } else { g::quant(true, vec![v("X", fol::Sort::General)], body) };
-                gt::annotated(fol::Role::Definition, fol::Direction::Universal, "baddef", f)
+                // the defective definition carries any direction annotation (decided without consuming a choice)
+    let direction = [fol::Direction::Universal, fol::Direction::Universal, fol::Direction::Forward, fol::Direction::Backward][c.aux(31, 4)];
+    gt::annotated(fol::Role::Definition, direction, "baddef", f)
             } else {
                 defective_definition(&mut oc, &task, defect, &earlier)
             };
